@@ -145,10 +145,10 @@ Proof.
   destruct (entered s); [reflexivity | cbn in *; lia].
 Qed.
 
-Lemma un_zero cfg mu s : additive mu -> Inv cfg s -> patched cfg = true -> inflight s = 0 ->
+Lemma un_zero cfg mu s : additive mu -> Inv cfg s -> inflight s = 0 ->
   M_un mu s = 0.
 Proof.
-  intros (H0 & _ & _) HI Hp Hi. pose proof (i_infl _ _ HI) as H. rewrite Hp in H.
+  intros (H0 & _ & _) HI Hi. pose proof (i_infl _ _ HI) as H.
   pose proof (sumz_nonneg c_send (cl s) c_send_nonneg). pose proof (sumz_nonneg b_gd (fl s) b_gd_nonneg).
   unfold cmdn in H. unfold M_un, cmd_l. destruct (cmd s); [lia|].
   rewrite H0, !sumz_ext_zero; [reflexivity| |].
@@ -174,7 +174,7 @@ Definition G (s : state) : Prop :=
   match nth_error (cl s) w with
   | Some (CFl FEnter true) | Some (CFl FRemove true) => True
   | Some (CFl (FExec _) true) | Some (CFl (FDone _) true) | Some CWSpin =>
-      k <= M_done mu s + M_en mu s + (if patched cfg then M_un mu s else 0)
+      k <= M_done mu s + M_en mu s + M_un mu s
   | Some CWGuard | Some CWWait => k <= M_done mu s + M_en mu s
   | Some CIdle => k <= M_done mu s
   | _ => False
@@ -182,10 +182,9 @@ Definition G (s : state) : Prop :=
 
 Lemma wait_step s e : Inv cfg s -> k <= M_acc mu s -> G s ->
   (forall kk, e <> EvCall w kk) ->
-  (patched cfg = false -> M_un mu (exec cfg s e) = 0) ->
   G (exec cfg s e).
 Proof.
-  intros HI Hk HG Hnc Hun. unfold exec in *. destruct (step cfg s e) as [s'|] eqn:Hs; [|exact HG].
+  intros HI Hk HG Hnc. unfold exec in *. destruct (step cfg s e) as [s'|] eqn:Hs; [|exact HG].
   destruct (step_facts _ _ _ _ HI Hs) as [HI' HM]. specialize (HM mu Hmu).
   pose proof (i_cons _ _ HI' mu Hmu) as Hc'.
   pose proof Hmu as (Hmu0 & Hmuapp & Hmunn).
@@ -204,36 +203,31 @@ Proof.
     + destruct f as [| |h|ok|ok]; destruct wt; try contradiction; cbn [fstep] in Hs;
         unfold callback in Hs; brk2 Hs; inversion Hs; subst s'; clear Hs;
         unfold G; fields; rewrite (nth_upd_eq _ _ _ _ Hn); try exact I.
-      all: try (destruct (patched cfg) eqn:Hp; try discriminate; try specialize (Hun eq_refl); lia).
+      all: try lia.
       (* RemoveAll: the container is empty afterwards *)
-      all: unfold M_cont in Hc'; fields; rewrite Hmu0 in Hc';
-        destruct (patched cfg) eqn:Hp; try specialize (Hun eq_refl); lia.
+      all: unfold M_cont in Hc'; fields; rewrite Hmu0 in Hc'; lia.
     + brk2 Hs. inversion Hs; subst s'; clear Hs. unfold G; fields; rewrite (nth_upd_eq _ _ _ _ Hn).
-      destruct (patched cfg) eqn:Hp; [|lia].
-      rewrite (un_zero cfg mu s Hmu HI Hp) in HG by lia. lia.
+      rewrite (un_zero cfg mu s Hmu HI) in HG by lia. lia.
     + brk2 Hs. inversion Hs; subst s'; clear Hs. unfold G; fields; rewrite (nth_upd_eq _ _ _ _ Hn). lia.
     + brk2 Hs. inversion Hs; subst s'; clear Hs. unfold G; fields; rewrite (nth_upd_eq _ _ _ _ Hn).
       rewrite (en_zero cfg mu s Hmu HI) in HG by lia. lia.
   - (* somebody else's action *)
     unfold G in *. rewrite (step_other_pc _ _ _ _ w Hs Hne Hnc).
     destruct (nth_error (cl s) w) as [p|]; [|contradiction].
-    destruct p as [|t wt|h| |f wt| | |]; try contradiction; try (destruct (patched cfg); lia).
-    destruct f as [| |h|ok|ok]; destruct wt; try contradiction; try exact I;
-      destruct (patched cfg); lia.
+    destruct p as [|t wt|h| |f wt| | |]; try contradiction; try lia.
+    destruct f as [| |h|ok|ok]; destruct wt; try contradiction; try exact I; lia.
 Qed.
 
 Lemma wait_track : forall evs s, Inv cfg s -> k <= M_acc mu s -> G s ->
   Forall (fun e => forall kk, e <> EvCall w kk) evs ->
-  (patched cfg = false -> forall j, M_un mu (run cfg s (firstn j evs)) = 0) ->
   G (run cfg s evs).
 Proof.
-  induction evs as [|e evs IH]; intros s HI Hk HG Hev Hun; cbn; [exact HG|].
+  induction evs as [|e evs IH]; intros s HI Hk HG Hev; cbn; [exact HG|].
   inversion Hev as [|? ? He Hev']; subst.
   destruct (exec_facts cfg s e HI) as [HI' HM]. pose proof (m_acc _ _ _ _ (HM mu Hmu)).
   apply IH; auto.
   - lia.
-  - apply wait_step; auto. intros Hp. exact (Hun Hp 1%nat).
-  - intros Hp j. exact (Hun Hp (S j)).
+  - apply wait_step; auto.
 Qed.
 End WaitTrack.
 
@@ -252,54 +246,38 @@ Proof.
   apply (nth_upd_eq _ _ _ _ H).
 Qed.
 
-(* the generic statement behind both Wait theorems *)
+(* the generic statement behind the Wait theorems, for any additive measure *)
 Lemma wait_covers_gen cfg s0 w mid mu :
   additive mu -> Inv cfg s0 ->
   nth_error (cl s0) w = Some CIdle ->
   no_call_of w mid ->
-  (patched cfg = false ->
-   forall j, M_un mu (run cfg s0 (firstn j (EvCall w CWait :: mid))) = 0) ->
   nth_error (cl (run cfg s0 (EvCall w CWait :: mid))) w = Some CIdle ->
   M_acc mu s0 <= M_done mu (run cfg s0 (EvCall w CWait :: mid)).
 Proof.
-  intros Hmu HI Hidle Hnc Hun Hret.
+  intros Hmu HI Hidle Hnc Hret.
   destruct (exec_facts cfg s0 (EvCall w CWait) HI) as [HI' HM].
   pose proof (m_acc _ _ _ _ (HM mu Hmu)) as Hacc.
   pose proof (wait_track cfg w mu (M_acc mu s0) Hmu mid (exec cfg s0 (EvCall w CWait)) HI' Hacc) as HT.
   rewrite run_cons in Hret |- *.
   unfold G in HT at 2. rewrite Hret in HT. apply HT; auto.
-  - unfold G. rewrite (exec_call_wait cfg s0 w Hidle). exact I.
-  - intros Hp j. exact (Hun Hp (S j)).
+  unfold G. rewrite (exec_call_wait cfg s0 w Hidle). exact I.
 Qed.
 
 Lemma wait_covers_l cfg n pre w mid :
-  patched cfg = false ->
   let s0 := run cfg (init n) pre in
   let s1 := run cfg s0 (EvCall w CWait :: mid) in
   nth_error (cl s0) w = Some CIdle ->
   no_call_of w mid ->
-  (forall j a, In a (accepted s0) ->
-     ~ In a (unentered (run cfg s0 (firstn j (EvCall w CWait :: mid))))) ->
   nth_error (cl s1) w = Some CIdle ->
-  forall a, In a (accepted s0) -> In a (done_tasks s1).
+  forall a, (count_occ Z.eq_dec (accepted s0) a <= count_occ Z.eq_dec (done_tasks s1) a)%nat.
 Proof.
-  intros Hp s0 s1 Hidle Hnc Hun Hret a Ha.
+  intros s0 s1 Hidle Hnc Hret a.
   pose proof (wait_covers_gen cfg s0 w mid (cntz a) (cntz_additive a) (run_inv cfg n pre)
-                Hidle Hnc) as H.
-  apply cntz_pos_in. rewrite (mu_done _ _ (cntz_additive a)).
-  apply cntz_pos_in in Ha. unfold M_acc in H. fold s1 in H.
-  assert (cntz a (accepted s0) <= M_done (cntz a) s1); [|lia].
-  apply H; auto. intros _ j.
-  rewrite <- (mu_unentered _ _ (cntz_additive a)).
-  specialize (Hun j a (proj1 (cntz_pos_in _ _) Ha)).
-  pose proof (proj1 (cntz_pos_in a (unentered (run cfg s0 (firstn j (EvCall w CWait :: mid)))))).
-  destruct (cntz_additive a) as (_ & _ & Hn). specialize (Hn (unentered (run cfg s0 (firstn j (EvCall w CWait :: mid))))).
-  destruct (Z_lt_le_dec 0 (cntz a (unentered (run cfg s0 (firstn j (EvCall w CWait :: mid))))))
-    as [Hpos|Hle]; [exfalso; apply Hun, H0, Hpos | lia].
+                Hidle Hnc Hret) as H.
+  fold s1 in H. rewrite <- (mu_done _ _ (cntz_additive a)) in H. unfold M_acc, cntz in H. lia.
 Qed.
 
-Lemma wait_covers_patched_l cfg n pre w mid :
-  patched cfg = true ->
+Lemma wait_covers_in cfg n pre w mid :
   let s0 := run cfg (init n) pre in
   let s1 := run cfg s0 (EvCall w CWait :: mid) in
   nth_error (cl s0) w = Some CIdle ->
@@ -307,13 +285,9 @@ Lemma wait_covers_patched_l cfg n pre w mid :
   nth_error (cl s1) w = Some CIdle ->
   forall a, In a (accepted s0) -> In a (done_tasks s1).
 Proof.
-  intros Hp s0 s1 Hidle Hnc Hret a Ha.
-  pose proof (wait_covers_gen cfg s0 w mid (cntz a) (cntz_additive a) (run_inv cfg n pre)
-                Hidle Hnc) as H.
-  apply cntz_pos_in. rewrite (mu_done _ _ (cntz_additive a)).
-  apply cntz_pos_in in Ha. unfold M_acc in H. fold s1 in H.
-  assert (cntz a (accepted s0) <= M_done (cntz a) s1); [|lia].
-  apply H; auto. intros Hf. congruence.
+  intros s0 s1 Hidle Hnc Hret a Ha.
+  pose proof (wait_covers_l cfg n pre w mid Hidle Hnc Hret a) as H. fold s0 s1 in H.
+  apply (count_occ_In Z.eq_dec). apply (count_occ_In Z.eq_dec) in Ha. lia.
 Qed.
 
 (* ------------------------------------------------------------------ *)
@@ -373,9 +347,7 @@ Proof.
   assert (Hna' : no_add_calls (EvCall w CWait :: mid)) by (constructor; [discriminate | exact Hna]).
   pose proof (wait_covers_gen cfg s0 w mid lenz lenz_additive HI0 Hidle Hnc) as H.
   assert (Hd : M_acc lenz s0 <= M_done lenz s1).
-  { apply H; auto. intros _ j.
-    destruct (quiet_run cfg _ s0 HI0 Hq (forall_firstn _ _ j Hna')) as [Hqj _].
-    apply (quiet_unentered cfg); auto using lenz_additive. apply run_inv_from, HI0. }
+  { apply H; auto. }
   destruct (quiet_run cfg _ s0 HI0 Hq Hna') as [_ Hacc]. specialize (Hacc lenz lenz_additive).
   fold s1 in Hacc.
   assert (HI1 : Inv cfg s1) by (apply run_inv_from, HI0).
@@ -433,10 +405,9 @@ Proof.
     pose proof (sumz_nonneg b_gd (fl s) b_gd_nonneg). pose proof (sumz_nonneg b_dec (fl s) b_dec_nonneg).
     pose proof (sumz_nonneg b_pre (fl s) b_pre_nonneg).
     assert (sumz b_pre (fl s) <= sumz b_live (fl s)) by (apply sumz_le; intros []; cbn; lia).
-    unfold cmdn in *. destruct (cmd s) eqn:Hcmd; [destruct (patched cfg); lia|].
+    unfold cmdn in *. destruct (cmd s) eqn:Hcmd; [lia|].
     repeat split; auto.
-    + intros c h Hc. pose proof (sumz_ge_nth c_send _ _ _ c_send_nonneg Hc). cbn in *.
-      destruct (patched cfg); lia.
+    + intros c h Hc. pose proof (sumz_ge_nth c_send _ _ _ c_send_nonneg Hc). cbn in *. lia.
     + intros c Hc. pose proof (sumz_ge_nth c_conf _ _ _ c_conf_nonneg Hc). cbn in *. lia.
 Qed.
 
@@ -452,3 +423,79 @@ Lemma callback_effect cfg s h :
    then lost (callback cfg s h) = lost s ++ [h] /\ executed (callback cfg s h) = executed s
    else executed (callback cfg s h) = executed s ++ [h] /\ lost (callback cfg s h) = lost s).
 Proof. unfold callback. destruct (panics cfg h); cbn; auto. Qed.
+
+(* ------------------------------------------------------------------ *)
+(* panicking callbacks, whole runs: simulation by the run in which they return normally *)
+
+Definition no_panic (cfg : config) : config := mkCfg (maxw cfg) (interval cfg) [].
+
+(* the state reached with panicking callbacks, computed from the state reached when the
+   same callbacks return normally: same core, the log split by "would have panicked" *)
+Definition relog (cfg : config) (s : state) : state :=
+  mkSt (cont s) (csize s) (cmd s) (inflight s) (guarded s) (wg s) (barrier s) (tick s) (now s)
+       (cl s) (fl s)
+       (filter (fun h => negb (panics cfg h)) (executed s)) (filter (panics cfg) (executed s))
+       (accepted s).
+
+Lemma panics_no_panic cfg h : panics (no_panic cfg) h = false.
+Proof. unfold panics, no_panic; cbn. induction h; cbn; auto. Qed.
+
+Ltac dm :=
+  repeat (match goal with
+  | |- context [match ?x with _ => _ end] =>
+    lazymatch x with
+    | context [match _ with _ => _ end] => fail
+    | _ => destruct x eqn:?
+    end
+  end; cbn -[panics filter Z.add Z.sub Z.leb Z.eqb Z.mul Z.ltb] in *).
+
+Lemma step_relog cfg s e :
+  step cfg (relog cfg s) e = option_map (relog cfg) (step (no_panic cfg) s e).
+Proof.
+  destruct s as [co cs cm inf gd wgc ba ti nw cls fls ex lo ac].
+  destruct e as [c k|c|b alt| |d]; unfold step, call_step, cstep, bstep, fstep, callback, relog;
+    cbn -[panics filter Z.add Z.sub Z.leb Z.eqb Z.mul Z.ltb]; rewrite ?panics_no_panic.
+  all: dm; rewrite ?panics_no_panic in *; try reflexivity; try discriminate.
+  all: unfold relog; cbn -[panics filter]; rewrite ?filter_app; cbn -[panics];
+    repeat match goal with H : panics _ _ = _ |- _ => rewrite ?H; clear H end; cbn; rewrite ?app_nil_r; try reflexivity.
+Qed.
+
+Lemma exec_relog cfg s e : exec cfg (relog cfg s) e = relog cfg (exec (no_panic cfg) s e).
+Proof. unfold exec. rewrite step_relog. destruct (step (no_panic cfg) s e); reflexivity. Qed.
+
+Lemma run_relog cfg sched : forall s,
+  run cfg (relog cfg s) sched = relog cfg (run (no_panic cfg) s sched).
+Proof.
+  induction sched as [|e sched IH]; intros s; [reflexivity|].
+  rewrite !run_cons, exec_relog. apply IH.
+Qed.
+
+Lemma no_panic_never_loses cfg sched : forall s, lost s = [] -> lost (run (no_panic cfg) s sched) = [].
+Proof.
+  induction sched as [|e sched IH]; intros s H; [exact H|]. rewrite run_cons. apply IH.
+  pose proof (exec_relog (no_panic cfg) s e) as Hr.
+  (* with no panicking task the relogged state has lost = filter (fun _ => false) *)
+  assert (Hl : forall s', lost (relog (no_panic cfg) s') = []).
+  { intros s'. unfold relog; cbn. induction (executed s'); cbn; [reflexivity|].
+    rewrite panics_no_panic. exact IHl. }
+  assert (He : forall s', lost s' = [] -> relog (no_panic cfg) s' = s').
+  { intros [co cs cm inf gd wgc ba ti nw cls fls ex lo ac] Hs; cbn in Hs; subst lo. unfold relog; cbn.
+    f_equal.
+    - induction ex; cbn; [reflexivity|]. rewrite panics_no_panic; cbn. now f_equal.
+    - induction ex; cbn; [reflexivity|]. rewrite panics_no_panic; exact IHex. }
+  rewrite (He s H) in Hr. assert (Hnn : no_panic (no_panic cfg) = no_panic cfg) by reflexivity.
+  rewrite Hnn in Hr. rewrite Hr. apply Hl.
+Qed.
+
+Lemma panic_simulation cfg n sched :
+  let s := run cfg (init n) sched in
+  let s0 := run (no_panic cfg) (init n) sched in
+  core s = core s0 /\ lost s0 = [] /\
+  executed s = filter (fun h => negb (panics cfg h)) (executed s0) /\
+  lost s = filter (panics cfg) (executed s0).
+Proof.
+  intros s s0. assert (Hi : relog cfg (init n) = init n) by reflexivity.
+  assert (Hs : s = relog cfg s0) by (unfold s, s0; rewrite <- run_relog, Hi; reflexivity).
+  split; [rewrite Hs; reflexivity|]. split; [apply no_panic_never_loses; reflexivity|].
+  rewrite Hs. split; reflexivity.
+Qed.
